@@ -277,6 +277,11 @@ func (w *simWriter) Write(p []byte) (int, error) {
 			w.buf.Write(p[:n])
 			return n, io.ErrShortWrite
 		}
+		if w.plan.Kind == "errfull" {
+			// the bytes were taken, then a later stage (flush, sync) failed: (len(p), err) is a legal result
+			w.buf.Write(p)
+			return len(p), errInjectedWrite
+		}
 		return 0, errInjectedWrite
 	}
 	w.buf.Write(p)
@@ -386,7 +391,7 @@ var digitsRe = regexp.MustCompile(`[0-9]+`)
 func stableName(rel string) string {
 	base := filepath.Base(rel)
 	switch base {
-	case "out.go", "keep.txt", "afile", "missing":
+	case "out.go", "keep.txt", "afile", "missing", "elsewhere.go":
 		return rel
 	}
 	return filepath.Join(filepath.Dir(rel), digitsRe.ReplaceAllString(base, "N"))
@@ -402,6 +407,14 @@ func snapshotDir(dir string) []string {
 		rel = stableName(rel)
 		if info.IsDir() {
 			rows = append(rows, rel+" dir")
+			return nil
+		}
+		if info.Mode()&os.ModeSymlink != 0 {
+			dest, _ := os.Readlink(p)
+			if r2, err := filepath.Rel(dir, dest); err == nil {
+				dest = r2
+			}
+			rows = append(rows, rel+" symlink -> "+dest)
 			return nil
 		}
 		b, _ := os.ReadFile(p)
@@ -441,6 +454,12 @@ func setupTarget(sub string, plan *FSPlan, op int, prevTarget string) (target st
 		os.WriteFile(filepath.Join(sub, "afile"), []byte("KEEP"), 0644)
 		os.Chtimes(filepath.Join(sub, "afile"), oldTime, oldTime)
 		target = filepath.Join(sub, "afile", "out.go")
+	case "symlink-dangling":
+		os.Symlink(filepath.Join(sub, "elsewhere.go"), target) // the destination does not exist
+	case "symlink-file":
+		os.WriteFile(filepath.Join(sub, "elsewhere.go"), []byte("package keep // behind a symlink\n"), 0644)
+		os.Chtimes(filepath.Join(sub, "elsewhere.go"), oldTime, oldTime)
+		os.Symlink(filepath.Join(sub, "elsewhere.go"), target)
 	case "again", "again-mkparent", "again-deleted", "again-scribbled":
 		// the same path as the previous Save of this history, after the world moved on
 		if prevTarget != "" {
@@ -723,7 +742,7 @@ func execBody(r *Recipe, env *Env, shared []*jen.Statement) (hist []Outcome) {
 						o.FSLog = append(o.FSLog, fmt.Sprintf("%s %s size=%d partial=%d injected=%q err=%v", c.Op, rel, c.Size, c.Partial, digitsRe.ReplaceAllString(strings.ReplaceAll(c.Injected, env.Sandbox, "$SANDBOX"), "N"), c.Err != ""))
 					}
 					o.FSAfter = snapshotDir(sub)
-					if st, e := os.Lstat(target); e == nil && st.Mode().IsRegular() {
+					if st, e := os.Stat(target); e == nil && st.Mode().IsRegular() {
 						o.SavedOK = true
 						o.Saved, _ = os.ReadFile(target)
 					}
